@@ -167,6 +167,11 @@ pub open spec fn slice_ok(s: &str, a: int, b: int) -> bool {
     && vstd::utf8::is_char_boundary(s.spec_bytes(), a)
     && vstd::utf8::is_char_boundary(s.spec_bytes(), b)
 }
+/// `s.get(a..b)`: the slice when the range is in bounds and on character boundaries, None otherwise (never panics)
+#[verifier::external_body]
+pub fn str_get<'a>(s: &'a str, a: usize, b: usize) -> (r: Option<&'a str>)
+    ensures r.is_some() == slice_ok(s, a as int, b as int), r.is_some() ==> is_slice(s, a as int, b as int, r.unwrap())
+{ s.get(a..b) }
 #[verifier::external_body]
 pub fn str_slice<'a>(s: &'a str, a: usize, b: usize) -> (r: &'a str)
     requires slice_ok(s, a as int, b as int)
